@@ -21,6 +21,7 @@ import (
 	"go/types"
 	"log"
 	"path"
+	"sort"
 	"strconv"
 	"strings"
 )
@@ -412,6 +413,7 @@ func checkXGoPkg(pkg *Package) (val ast.Expr, ok bool) {
 		}
 	}
 	if len(deps) > 0 {
+		sort.Strings(deps) // map iteration order must not reach the generated file
 		return astStringLit(strings.Join(deps, ",")), true
 	}
 	if ok = pkg.isXGoPkg; ok {
